@@ -143,7 +143,9 @@ class C12(core.Property):
     rule = ("families: paxos (3-5 real PaxosNodes in the real engine + Network, 1-4 proposals incl. several on one node, "
             "per-message latencies from small pools with late/never-delivered outliers, optional partition window, retry delay and "
             "jitter draws generated; non-trivial = some Accept was sent); mpaxos / fpaxos (MultiPaxosNode / FlexiblePaxosNode, 2-8 "
-            "start/submit calls on random nodes, generated (q1,q2) with q1+q2>n); election (LeaderElection x Bully/Ring/Randomized, "
+            "start/submit calls on random nodes; fpaxos: (q1,q2) with q1+q2>n, mostly asymmetric in both directions and tight (q1+q2=n+1), n 3-5, "
+            "half of the cases the take-over scenario: a leader cut off with exactly q1 (or q1+-1, q2-1, q2) nodes on its side runs phase 1 and proposes "
+            "inside the partition, heal, a node of the other side takes over with another command for the same slot); election (LeaderElection x Bully/Ring/Randomized, "
             "uniform and non-uniform member views, add_member, partitions); lock (4-60 acquire/try/release/expire calls on 1-3 locks, "
             "tokens at/around the live token, max_waiters 0-2; non-trivial = >= 2 grants). distinct = distinct case content")
     trusted_base = [
@@ -160,13 +162,26 @@ class C12(core.Property):
         "None as a decided value is printed as 0; generated values are >= 1",
         "Multi-Paxos 'reported decision' of a node for a slot = its committed log entry (public node.log), after every delivered event",
         "message loss / partitions are schedules in which a sent message is never delivered",
+        "commit rule (mpaxos|fpaxos/commit/without-phase2-quorum): judged in the acknowledgement form — when an Accepted delivery raises the receiver's "
+        "public commit_index, 1 (own entry) + the number of Accepted messages for that slot delivered to it so far is >= q2. The distinct-acceptor form "
+        "(>= q2 different nodes accepted (ballot, slot, value)) is FALSE of the pinned tree (acks are counted per slot: duplicates, other ballots) — "
+        "theorem MP.commit_distinct_quorum_current_false; it is measured per run (coverage.commit_rule_measured_not_judged) and judged only with "
+        "C12.strict_commit_quorum = True (signature */commit/fewer-distinct-acceptors-than-phase2-quorum). Slots committed as the prefix of the "
+        "acknowledged slot are not judged by this clause",
+        "phase-1 rule (mpaxos|fpaxos/leader/without-phase1-quorum): when start() or a delivered Promise turns the public is_leader of a node from false "
+        "to true, 1 (its own start) + the number of Promise messages for that ballot number delivered to it so far is >= q1 (responses counted as the "
+        "implementation counts them: per message, not per distinct sender)",
     ]
-    hypotheses = ["flexible_paxos_agreement: n < q1 + q2 and 0 < q2 (FlexiblePaxosNode enforces q1 + q2 > n; q2 = 0 would make every decision vacuous)",
+    hypotheses = ["flexible_quorums_intersect: n < q1 + q2, quorums are duplicate-free lists of node indices < n",
+                  "flexible_paxos_agreement: n < q1 + q2 and 0 < q2 (FlexiblePaxosNode enforces q1 + q2 > n; q2 = 0 would make every decision vacuous)",
                   "paxos_validity: 0 < q2"]
     partial_theorems = {
         "slot_agreement": "Multi-Paxos / Flexible-Paxos slot agreement is REFUTED for the pinned tree (slot_agreement_current_false, "
                           "flexible_slot_agreement_current_false, slot_agreement_full_current_false); no repaired Multi-Paxos variant is modelled: "
                           "`slot_agreement_full` is stated, not proved (the repair is a redesign; per slot it is single-decree Paxos, for which flexible_paxos_agreement is proved)",
+        "commit_needs_phase2_quorum (distinct-acceptor form)": "the distinct-acceptor reading (>= q2 different nodes accepted (ballot, slot, value) at a leader commit) is "
+                                                               "REFUTED for the pinned tree (commit_distinct_quorum_current_false: duplicate Accepted messages of one acceptor are "
+                                                               "counted); proved and judged is the acknowledgement form (commit_needs_phase2_quorum), which the distinct form implies",
         "election_one_leader_per_term": "REFUTED in general (election_two_leaders_one_term: a joining node reuses a term); for identical static member views "
                                         "the clause held on every generated schedule but is not machine-proved (needs a message-soup model of the three strategies)",
         "single_proposer_decides (liveness)": "not stated: bounded-progress form needs an engine-time model; the fault-free single-proposer schedules in the paxos family all decide (checked by the judge only for safety)",
@@ -424,8 +439,99 @@ class C12(core.Property):
             case["q1"], case["q2"] = q1, q2
         return case
 
+    @staticmethod
+    def _fp_quorums(rng, n):
+        """(q1, q2) with q1 + q2 > n: mostly asymmetric, in both directions (q1 < q2 and q1 > q2), the
+        tight boundary q1 + q2 = n + 1 favoured"""
+        pairs = [(a, b) for a in range(1, n + 1) for b in range(1, n + 1) if a + b > n]
+        r = rng.random()
+        if r < 0.45:
+            pool = [p for p in pairs if p[0] < p[1]]
+        elif r < 0.75:
+            pool = [p for p in pairs if p[0] > p[1]]
+        else:
+            pool = pairs
+        tight = [p for p in pool if p[0] + p[1] == n + 1]
+        if tight and rng.random() < 0.6:
+            pool = tight
+        return rng.choice(pool)
+
     def gen_fpaxos(self, rng, tier):
-        return self.gen_mpaxos(rng, tier, flex=True)
+        if rng.random() < 0.5:
+            return self.gen_fpaxos_takeover(rng, tier)
+        case = self.gen_mpaxos(rng, tier, flex=True)
+        if rng.random() < 0.7:
+            case["q1"], case["q2"] = self._fp_quorums(rng, case["n"])
+            starts = [o for o in case["ops"] if o["op"] == "start"]
+            if starts and rng.random() < 0.5:
+                # a partition sized around the quorums with a starting node inside
+                case["ops"] = [o for o in case["ops"] if o["op"] not in ("partition", "heal")]
+                st = rng.choice(starts)
+                side = self._side_around(rng, case["n"], st["node"], case["q1"], case["q2"])
+                t0 = max(0, st["t"] - rng.choice([0, 1, 2]) * 1_000_000)
+                case["ops"].append({"t": t0, "op": "partition", "a": side})
+                case["ops"].append({"t": t0 + rng.choice([5, 20, 50, 300]) * 1_000_000, "op": "heal"})
+                # partition first, heal last among simultaneous ops
+                case["ops"].sort(key=lambda o: (o["t"], {"partition": 0, "heal": 2}.get(o["op"], 1)))
+        return case
+
+    @staticmethod
+    def _side_around(rng, n, leader, q1, q2):
+        """the leader's side of a partition: exactly q1 nodes (itself included, as the implementation
+        counts it), or a size next to q1 / q2"""
+        size = rng.choice([q1, q1, q1, q2 - 1, q2, min(q1, q2), q1 - 1, q1 + 1])
+        size = max(1, min(n - 1, size))
+        others = [i for i in range(n) if i != leader]
+        rng.shuffle(others)
+        return sorted([leader] + others[:size - 1])
+
+    def gen_fpaxos_takeover(self, rng, tier):
+        """Flexible Paxos, asymmetric quorums: a leader is cut off together with exactly q1 - 1 (or a
+        neighbouring number of) acceptors, runs phase 1 and proposes a slot inside the partition (it
+        can gather q1 acknowledgements there, itself included); the partition heals and a node of the
+        other side takes over with a different command for the same slot."""
+        ms = 1_000_000
+        n = rng.choice([3, 4, 4, 5, 5])
+        q1, q2 = self._fp_quorums(rng, n)
+        ldr = rng.randrange(n)
+        side = self._side_around(rng, n, ldr, q1, q2)
+        rest = [i for i in range(n) if i not in side]
+        other = rng.choice(rest)
+        ops, t, c = [], 0, 1
+        if rng.random() < 0.5:
+            # the leader is established on the healthy network first: every node has seen its ballot
+            ops.append({"t": t, "op": "start", "node": ldr})
+            t += rng.choice([5, 10, 30]) * ms
+        ops.append({"t": t, "op": "partition", "a": side})
+        t += rng.choice([1, 2, 5]) * ms
+        for _ in range(rng.choice([1, 1, 1, 2])):
+            ops.append({"t": t, "op": "submit", "node": ldr, "cmd": c})
+            c += 1
+            t += rng.choice([0, 1, 3]) * ms
+            ops.append({"t": t, "op": "start", "node": ldr})     # phase 1 + re-proposal inside the partition
+            t += rng.choice([10, 20, 60]) * ms
+        ops.append({"t": t, "op": "heal"})
+        t += rng.choice([1, 5, 20]) * ms
+        ops.append({"t": t, "op": "submit", "node": other, "cmd": c})
+        c += 1
+        t += rng.choice([0, 1, 5]) * ms
+        ops.append({"t": t, "op": "start", "node": other})
+        if rng.random() < 0.4:
+            # a second round: its ballot number is above the old leader's whatever the node order
+            t += rng.choice([10, 30]) * ms
+            ops.append({"t": t, "op": "start", "node": other})
+        if rng.random() < 0.3:
+            t += rng.choice([10, 40, 200]) * ms
+            nd = rng.randrange(n)
+            if rng.random() < 0.5:
+                ops.append({"t": t, "op": "submit", "node": nd, "cmd": c})
+                t += ms
+            ops.append({"t": t, "op": "start", "node": nd})
+        pool = rng.choice([[1], [1], [1, 2], [1, 2, 3], [1, 1, 1, 8]])
+        lat = [rng.choice(pool) * ms for _ in range(rng.choice([1, 7, 13]))]
+        # the run ends some time after the last call (the heartbeat chatter of an idle leader adds nothing)
+        return {"family": "fpaxos", "n": n, "ops": ops, "lat": lat, "hb_ms": rng.choice([50, 1000, 1000]),
+                "q1": q1, "q2": q2, "end_ms": t // ms + rng.choice([60, 300, 2500])}
 
     def impl_fpaxos(self, case):
         return self.impl_mpaxos(case)
@@ -552,7 +658,8 @@ class C12(core.Property):
 
         for i in range(n):
             wrap(i)
-        sim = Simulation(end_time=_instant(END_NS), entities=[net, *nodes])
+        end_ns = case["end_ms"] * 1_000_000 if "end_ms" in case else END_NS
+        sim = Simulation(end_time=_instant(end_ns), entities=[net, *nodes])
 
         def mk(op):
             def fn(event):
@@ -593,23 +700,83 @@ class C12(core.Property):
     def model_fpaxos(self, case, variant):
         return self.model_mpaxos(case, variant)
 
+    strict_commit_quorum = False   # judge the distinct-acceptor form too (false of the pinned tree: duplicate acks are counted)
+    _commit_stats = {"leader_commits_observed": 0, "leader_commits_with_fewer_distinct_acceptors_than_q2": 0,
+                     "leader_commits_covering_several_slots": 0}
+
+    def extra_checks(self, ctx):
+        ctx.stats["commit_rule_measured_not_judged"] = dict(self._commit_stats)
+        return []
+
     def judge_mpaxos(self, case, impl_out):
         """observables: submitted commands, every node's committed prefix after every step (public
-        `node.log`), resolved futures"""
+        `node.log`), resolved futures, and for the commit rule: Accept messages sent (`prop`), Accepts
+        answered with Accepted (`acc`), Accepted messages delivered together with the receiver's public
+        commit index before and after (`ack`), and for phase 1: start() calls and delivered Promises with the
+        receiver's public is_leader before and after (`prom`)"""
+        n = case["n"]
+        flex = case["family"] == "fpaxos"
+        q1 = case.get("q1", n // 2 + 1) if flex else n // 2 + 1
+        q2 = case.get("q2", n // 2 + 1) if flex else n // 2 + 1
         body = []
         fid = 0
-        for l in impl_out:
-            t = l.split()
-            if t[0] == "step" and t[2] == "submit":
-                body.append(f"sub {fid} {t[4]}")
+        ci_of = [0] * n                # last observed log.commit_index per node
+        ldr_of = ["0"] * n             # last observed is_leader per node
+        accepted = {}                  # (ballot, slot, cmd) -> nodes that hold / accepted it
+        k, N = 0, len(impl_out)
+        while k < N:
+            t = impl_out[k].split()
+            k += 1
+            if t[0] != "step":
+                continue
+            act = t[2:]
+            st = impl_out[k].split()   # "node i b B L x ldr y ci c ap a log LG"
+            k += 1
+            node, bal, ldr, ci = int(st[1]), st[3], st[5], int(st[9])
+            ents = [] if st[13] == "-" else [e.split(":")[1] for e in st[13].split(",")]
+            sent, futs = [], []
+            while k < N and not impl_out[k].startswith("step "):
+                e = impl_out[k].split()
+                k += 1
+                if e[0] == "send":
+                    sent.append(e)
+                elif e[0] == "fut":
+                    futs.append(e)
+            if act[0] == "submit":
+                body.append(f"sub {fid} {act[2]}")
                 fid += 1
-            elif t[0] == "node":
-                ci = int(t[9])
-                lg = [] if t[13] == "-" else [e.split(":")[1] for e in t[13].split(",")]
-                body.append(f"com {t[1]} " + " ".join(lg[:ci]))
-            elif t[0] == "fut":
-                body.append(f"fut {t[1]} {t[2]} {t[3]}")
-        return (f"judge-log {case['family']}", body)
+            elif act[0] == "start":
+                body.append(f"prom {node} {bal.split('.')[0]} {ldr_of[node]} {ldr}")     # its own promise
+            elif act[0] == "promise":
+                body.append(f"prom {node} {act[2]} {ldr_of[node]} {ldr}")
+            ldr_of[node] = ldr
+            seen = set()
+            for e in sent:
+                if e[1] == "Accept" and (e[3], e[4], e[5]) not in seen:
+                    seen.add((e[3], e[4], e[5]))
+                    body.append(f"prop {node} {e[3]} {e[4]} {e[5]}")
+                    accepted.setdefault((e[3], e[4], e[5]), set()).add(node)
+            if act[0] == "accept" and any(e[1] == "Accepted" for e in sent):
+                body.append(f"acc {node} {act[3]} {act[4]} {act[5]}")
+                accepted.setdefault((act[3], act[4], act[5]), set()).add(node)
+            if act[0] == "accepted":
+                slot = int(act[2])
+                cmd = ents[slot - 1] if 1 <= slot <= len(ents) else 0
+                body.append(f"ack {node} {slot} {ci_of[node]} {ci} {bal} {cmd}")
+                if ci > ci_of[node]:
+                    # measured, not judged (see `assumptions`): commits reached on duplicate acknowledgements
+                    st_ = self._commit_stats
+                    st_["leader_commits_observed"] += 1
+                    if len(accepted.get((bal, str(slot), str(cmd)), ())) < q2:
+                        st_["leader_commits_with_fewer_distinct_acceptors_than_q2"] += 1
+                    if ci - ci_of[node] > 1:
+                        st_["leader_commits_covering_several_slots"] += 1
+            ci_of[node] = ci
+            body.append(f"com {node} " + " ".join(ents[:ci]))
+            for e in futs:
+                body.append(f"fut {e[1]} {e[2]} {e[3]}")
+        mode = "strict" if self.strict_commit_quorum else "acks"
+        return (f"judge-log {case['family']} {n} {q1} {q2} {mode}", body)
 
     def judge_fpaxos(self, case, impl_out):
         return self.judge_mpaxos(case, impl_out)
@@ -936,7 +1103,52 @@ class C12(core.Property):
             o = rng.choice(c["ops"])
             o["t"] = max(0, o["t"] + rng.choice([-1, 1, 5]) * 1_000_000)
             c["ops"].sort(key=lambda o: o["t"])
+        if fam in ("mpaxos", "fpaxos"):
+            self._mutate_log_case(c, rng)
         return c
+
+    def _mutate_log_case(self, c, rng):
+        """quorum asymmetry (Flexible Paxos), partition sizes around q1 / q2, a take-over tail"""
+        ms = 1_000_000
+        n = c["n"]
+        if c["family"] == "fpaxos" and rng.random() < 0.6:
+            q1, q2 = c.get("q1", n // 2 + 1), c.get("q2", n // 2 + 1)
+            cands = [(q2, q1), (q1 - 1, q2), (q1 + 1, q2), (q1, q2 - 1), (q1, q2 + 1), (q1, n - q1 + 1),
+                     (n - q2 + 1, q2), (1, n), (n, 1), self._fp_quorums(rng, n)]
+            cands = [(a, b) for a, b in cands if 1 <= a <= n and 1 <= b <= n and a + b > n and (a, b) != (q1, q2)]
+            if cands:
+                c["q1"], c["q2"] = rng.choice(cands)
+        q1 = c.get("q1", n // 2 + 1)
+        q2 = c.get("q2", n // 2 + 1)
+        ops = c["ops"]
+        starts = [o for o in ops if o["op"] == "start"]
+        parts = [o for o in ops if o["op"] == "partition"]
+        r = rng.random()
+        if r < 0.25 and parts:
+            # grow / shrink the cut-off side by one node
+            o = rng.choice(parts)
+            a = list(o["a"])
+            out = [i for i in range(n) if i not in a]
+            if rng.random() < 0.5 and len(a) > 1:
+                a.remove(rng.choice(a))
+            elif len(out) > 1:
+                a.append(rng.choice(out))
+            o["a"] = sorted(a)
+        elif r < 0.5 and starts:
+            # (re)place the partition: a starting node with exactly q1 / about q2 nodes on its side
+            st = rng.choice(starts)
+            ops[:] = [o for o in ops if o["op"] not in ("partition", "heal")]
+            t0 = max(0, st["t"] - rng.choice([0, 1, 2]) * ms)
+            ops.append({"t": t0, "op": "partition", "a": self._side_around(rng, n, st["node"], q1, q2)})
+            ops.append({"t": t0 + rng.choice([5, 20, 50, 300]) * ms, "op": "heal"})
+        elif r < 0.7 and ops:
+            # another node takes over at the end with a fresh command
+            t = max(o["t"] for o in ops) + rng.choice([1, 10, 50]) * ms
+            nd = rng.randrange(n)
+            cmd = 1 + max([o.get("cmd", 0) for o in ops])
+            ops.append({"t": t, "op": "submit", "node": nd, "cmd": cmd})
+            ops.append({"t": t + ms, "op": "start", "node": nd})
+        ops.sort(key=lambda o: (o["t"], {"partition": 0, "heal": 2}.get(o["op"], 1)))
 
 
 THEOREMS = [
@@ -952,6 +1164,15 @@ THEOREMS = [
     "HappyModel.C12.MP.slot_agreement_current_false",
     "HappyModel.C12.MP.flexible_slot_agreement_current_false",
     "HappyModel.C12.MP.slot_agreement_full_current_false",
+    "HappyModel.C12.flexible_quorums_intersect",
+    "HappyModel.C12.paxos_decision_has_phase2_quorum",
+    "HappyModel.C12.MP.commit_needs_phase2_quorum",
+    "HappyModel.C12.MP.commit_judge_silent",
+    "HappyModel.C12.MP.commit_on_phase1_quorum_violates_spec",
+    "HappyModel.C12.MP.commit_distinct_quorum_current_false",
+    "HappyModel.C12.MP.leader_needs_phase1_quorum",
+    "HappyModel.C12.MP.leader_judge_silent",
+    "HappyModel.C12.MP.leader_on_phase2_quorum_violates_spec",
     "HappyModel.C12.El.election_two_leaders_one_term",
     "HappyModel.C12.El.election_one_leader_per_term_current_false",
 ]
